@@ -117,6 +117,16 @@ pub fn catalogue() -> Vec<Edge> {
         }
     }));
     e("c.overrides_with(o)".into(), Box::new(|c| c.arg_mut("c").unwrap().overrides.push("o".into())));
+    e("a.required_unless_present(g2={c,d})".into(), Box::new(|c| {
+        group(c, "g2", &["c", "d"]);
+        c.arg_mut("a").unwrap().required_unless.push("g2".into());
+    }));
+    e("d.requires(c)".into(), Box::new(|c| c.arg_mut("d").unwrap().requires.push("c".into())));
+    e("d.conflicts_with(a)".into(), Box::new(|c| c.arg_mut("d").unwrap().conflicts.push("a".into())));
+    e("d.required".into(), Box::new(|c| c.arg_mut("d").unwrap().required = true));
+    e("g2.conflicts_with(a)".into(), Box::new(|c| group(c, "g2", &["c", "d"]).conflicts.push("a".into())));
+    e("g1.requires(o)".into(), Box::new(|c| { group(c, "g1", &["a", "b"]).requires.push("o".into()); }));
+    e("o.requires_if(y,c)".into(), Box::new(|c| c.arg_mut("o").unwrap().requires_ifs.push(("y".into(), "c".into()))));
     e("arg_required_else_help".into(), Box::new(|c| c.set(Setting::ArgRequiredElseHelp)));
     for x in ["a", "b"] {
         let xs = x.to_string();
@@ -158,6 +168,88 @@ pub fn argvs(n: usize) -> Vec<Vec<Vec<u8>>> {
         }
         for s in &next {
             out.push(s.iter().map(|i| TOKENS[*i].as_bytes().to_vec()).collect());
+        }
+        frontier = next;
+    }
+    out
+}
+
+// ---------------------------------------------------------------------------------------------
+// nested family: prog(--a) -> sub(--x, --y) -> deep(--z); relations and negating settings at every
+// level, so that a rule of one level can be seen leaking into (or missing from) another.
+
+pub fn nested_base() -> CmdSpec {
+    let mut c = CmdSpec::new("prog");
+    c.args.push(ArgSpec::flag("a", None, Some("a")));
+    let mut s = CmdSpec::new("sub");
+    s.args.push(ArgSpec::flag("x", None, Some("x")));
+    s.args.push(ArgSpec::flag("y", None, Some("y")));
+    let mut d = CmdSpec::new("deep");
+    d.args.push(ArgSpec::flag("z", None, Some("z")));
+    s.subs.push(d);
+    c.subs.push(s);
+    c
+}
+
+fn sub_of(c: &mut CmdSpec) -> &mut CmdSpec {
+    &mut c.subs[0]
+}
+fn deep_of(c: &mut CmdSpec) -> &mut CmdSpec {
+    &mut c.subs[0].subs[0]
+}
+
+pub fn nested_catalogue() -> Vec<Edge> {
+    let mut v: Vec<Edge> = vec![];
+    let mut e = |name: &str, f: Box<dyn Fn(&mut CmdSpec) + Send + Sync>| v.push(Edge { name: name.to_string(), apply: f });
+    e("prog.args_conflicts_with_subcommands", Box::new(|c| c.set(Setting::ArgsConflictsWithSubcommands)));
+    e("prog.subcommand_negates_reqs", Box::new(|c| c.set(Setting::SubcommandNegatesReqs)));
+    e("prog.a.required", Box::new(|c| c.arg_mut("a").unwrap().required = true));
+    e("prog.subcommand_required", Box::new(|c| c.set(Setting::SubcommandRequired)));
+    e("sub.x.required", Box::new(|c| sub_of(c).arg_mut("x").unwrap().required = true));
+    e("sub.x.requires(y)", Box::new(|c| sub_of(c).arg_mut("x").unwrap().requires.push("y".into())));
+    e("sub.y.conflicts_with(x)", Box::new(|c| sub_of(c).arg_mut("y").unwrap().conflicts.push("x".into())));
+    e("sub.group{x,y}.required", Box::new(|c| {
+        sub_of(c).groups.push(GroupSpec { id: "g".into(), args: vec!["x".into(), "y".into()], required: true, ..Default::default() });
+    }));
+    e("sub.x.required_unless_present(y)", Box::new(|c| sub_of(c).arg_mut("x").unwrap().required_unless.push("y".into())));
+    e("sub.subcommand_negates_reqs", Box::new(|c| sub_of(c).set(Setting::SubcommandNegatesReqs)));
+    e("sub.args_conflicts_with_subcommands", Box::new(|c| sub_of(c).set(Setting::ArgsConflictsWithSubcommands)));
+    e("sub.y.exclusive", Box::new(|c| sub_of(c).arg_mut("y").unwrap().exclusive = true));
+    e("deep.z.required", Box::new(|c| deep_of(c).arg_mut("z").unwrap().required = true));
+    v
+}
+
+pub fn nested_graphs(k: usize) -> Vec<(Vec<String>, CmdSpec)> {
+    let cat = nested_catalogue();
+    let mut out = vec![];
+    for set in mccore::subsets_upto(cat.len(), k) {
+        let mut c = nested_base();
+        for &i in &set {
+            (cat[i].apply)(&mut c);
+        }
+        out.push((set.iter().map(|&i| cat[i].name.clone()).collect(), c));
+    }
+    out
+}
+
+pub const NESTED_TOKENS: [&str; 6] = ["--a", "sub", "--x", "--y", "deep", "--z"];
+
+pub fn nested_argvs(n: usize) -> Vec<Vec<Vec<u8>>> {
+    let mut out: Vec<Vec<Vec<u8>>> = vec![vec![]];
+    let mut frontier: Vec<Vec<usize>> = vec![vec![]];
+    for _ in 0..n {
+        let mut next = vec![];
+        for s in &frontier {
+            for i in 0..NESTED_TOKENS.len() {
+                if !s.contains(&i) {
+                    let mut t = s.clone();
+                    t.push(i);
+                    next.push(t);
+                }
+            }
+        }
+        for s in &next {
+            out.push(s.iter().map(|i| NESTED_TOKENS[*i].as_bytes().to_vec()).collect());
         }
         frontier = next;
     }
